@@ -31,7 +31,7 @@ def gen_case(g):
     da, db = r.choice(dts), r.choice(dts)
     n = r.choice([1, 2, 3, 3])
     shape = r.choice([[], [1], [4], [2, 2]])
-    kind = r.choice(["bin_vec", "bin_arr", "bin_val", "rbin", "mismatch", "unary", "pow", "normsq", "dot", "cross", "get", "comp"])
+    kind = r.choice(["bin_vec", "bin_arr", "bin_val", "rbin", "setcomp", "mismatch", "unary", "pow", "normsq", "dot", "cross", "get", "comp"])
     prog = []
     v = mkvec(g, prog, 10, n, shape, da, ua, name=r.choice(["", "vel"]))
 
@@ -90,6 +90,23 @@ def gen_case(g):
                 prog.append({"op": "rbin", "dst": 40 + c, "name": op, "a": 10 + c, "py": pyk, "lhs": lhs})
                 prog.append({"op": "obs", "v": 40 + c})
         prog += [{"op": "obs", "v": v}]
+    elif kind == "setcomp":
+        # a component attribute rebound after construction (v.z = a, v.x = a): every later operation is made of the new object
+        c = r.randint(0, n - 1) if (n == 3 or r.random() < 0.5) else n
+        prog.append({"op": "arr", "dst": 20, "v": g.arr(shape, da, ua, small=True)})
+        prog.append({"op": "vec_setcomp", "a": v, "c": c, "v": 20})
+        prog.append({"op": "obs", "v": v})
+        prog.append({"op": "bin", "dst": 30, "name": "mul", "a": v, "rhs": {"k": "val", "py": "num", "v": g.arr([], "i8", "", small=True)}})
+        prog.append({"op": "obs", "v": 30})
+        prog.append({"op": "un", "dst": 31, "name": "neg", "a": v})
+        prog.append({"op": "obs", "v": 31})
+        prog.append({"op": "bin", "dst": 32, "name": "add", "a": v, "rhs": {"k": "var", "v": v}})
+        prog.append({"op": "obs", "v": 32})
+        prog.append({"op": "normsq", "a": v})
+        prog.append({"op": "dot", "dst": 33, "a": v, "b": v})
+        prog.append({"op": "obs", "v": 33})
+        prog.append({"op": "comp", "dst": 34, "a": v, "c": c})
+        prog.append({"op": "same", "a": 34, "b": 20})
     elif kind == "mismatch":
         m = r.choice([k for k in (1, 2, 3) if k != n])
         w = mkvec(g, prog, 20, m, shape, db, ub)
